@@ -1,14 +1,483 @@
+// C03 harness: random interleavings of cross-chain transfers / relays / acknowledgements on 2-3 REAL chains.
+// After EVERY step all observables of all chains are read (balances, totalSupply, outTokens, bindings,
+// getNextSequenceSend, getAckStatus, packetFees, call-data effects). One JSON line per history.
+//
+//	c03 -seed N -n K [-from i -to j] [-ops M] [-thorough] -out f.jsonl     generate + run histories i..j-1 of K
+//	c03 -in specs.jsonl -out f.jsonl                                     replay recorded specs
+//	c03 -probe                                                          contract-behaviour probe (notes/C03.md)
 package main
 
 import (
+	"encoding/json"
 	"flag"
+	"fmt"
+	"math/big"
+
+	"github.com/ethereum/go-ethereum/common"
+
+	"github.com/teleport-network/teleport/syscontracts"
+	stakingcontract "github.com/teleport-network/teleport/syscontracts/staking"
+	packettypes "github.com/teleport-network/teleport/x/xibc/core/packet/types"
+	xibctesting "github.com/teleport-network/teleport/x/xibc/testing"
+
+	"verifharness/hlib"
 )
+
+// holder codes: 0..nusers-1 users, then the system holders; -1 = malformed receiver string
+const (
+	HEndpoint = 100 + iota
+	HPacket
+	HExecute
+	HAgent
+	HRelayer
+)
+
+const (
+	CdNone = iota
+	CdOk
+	CdRevert
+	CdHookFail
+	CdOnwardUnknown
+)
+
+type Bind struct {
+	C     int   `json:"c"`
+	Loc   int   `json:"loc"`
+	Src   int   `json:"src"`
+	Ori   int   `json:"ori"`
+	Scale uint8 `json:"scale"`
+}
+
+type Op struct {
+	ID   int    `json:"id"`
+	K    string `json:"k"` // T transfer, R relay recv, A relay ack, F add fee
+	C    int    `json:"c,omitempty"`
+	U    int    `json:"u,omitempty"`
+	Tok  int    `json:"tok,omitempty"`
+	Amt  string `json:"amt,omitempty"`
+	Dst  int    `json:"dst,omitempty"`
+	Rcv  int    `json:"rcv,omitempty"`
+	Cd   int    `json:"cd,omitempty"`
+	Cb   int    `json:"cb,omitempty"`
+	FTok int    `json:"ftok,omitempty"`
+	Fee  string `json:"fee,omitempty"`
+	Ref  int    `json:"ref,omitempty"` // R/A/F: id of the transfer op whose packet is meant
+}
+
+type Spec struct {
+	ID      int        `json:"id"`
+	Seed    uint64     `json:"seed"`
+	NChains int        `json:"nchains"`
+	NUsers  int        `json:"nusers"`
+	NTok    []int      `json:"ntok"`  // ERC-20 tokens per chain (ids 1..n; 0 = native coin)
+	Binds   []Bind     `json:"binds"` // registered before the history starts
+	Mint    [][]string `json:"mint"`  // [chain, token, user, amount]
+	Ops     []Op       `json:"ops"`
+	NOps    int        `json:"nops"` // generator: number of ops to produce when Ops is empty
+}
+
+// ChainObs: the observables of one chain, in the canonical order documented in Model/BridgeCheck.v
+type ChainObs struct {
+	Bal    []string    `json:"bal"`    // token 0..ntok, holder in universe order
+	Supply []string    `json:"supply"` // token 1..ntok
+	Out    []string    `json:"out"`    // token 0..ntok, chain 0..n-1 (own chain included, always 0)
+	Bind   []string    `json:"bind"`   // token 0..ntok, chain 0..n-1
+	Next   []string    `json:"next"`   // chain 0..n-1
+	Pk     [][3]string `json:"pk"`     // packets sent from this chain, creation order: ackStatus, fee token id, fee amount
+	Eff    []string    `json:"eff"`    // CdOk packets towards this chain, creation order: allowance
+}
+
+type ROp struct { // resolved operation in model terms
+	K    string `json:"k"`
+	C    int    `json:"c"`
+	U    int    `json:"u"`
+	Tok  int    `json:"tok"`
+	Amt  string `json:"amt"`
+	Dst  int    `json:"dst"`
+	Rcv  int    `json:"rcv"`
+	Cd   int    `json:"cd"`
+	E    int    `json:"e"`
+	Cb   int    `json:"cb"`
+	FTok int    `json:"ftok"`
+	Fee  string `json:"fee"`
+	Src  int    `json:"src"`
+	Seq  uint64 `json:"seq"`
+}
+
+type Step struct {
+	OpID  int        `json:"op_id"`
+	Op    ROp        `json:"op"`
+	Class int        `json:"class"` // 0 accepted, 1 rejected
+	Code  uint64     `json:"code"`  // R: result code of the acknowledgement written
+	Note  string     `json:"note,omitempty"`
+	Obs   []ChainObs `json:"obs"`
+}
+
+type Result struct {
+	Spec  Spec       `json:"spec"`
+	Init  []ChainObs `json:"init"`
+	Steps []Step     `json:"steps"`
+}
+
+// ---------------------------------------------------------------------------------------------------------------
+
+type sentPacket struct {
+	opID   int
+	p      packettypes.Packet
+	src    int
+	dst    int
+	cd     int
+	ack    []byte
+	recvd  bool
+	acked  bool
+	broken bool // callback address without callback(): can never be acknowledged
+}
+
+type run struct {
+	w      *World
+	spec   *Spec
+	tokens [][]common.Address // [chain][token id]; [c][0] = zero address
+	sent   []*sentPacket
+	byOp   map[int]*sentPacket
+}
+
+func (r *run) holderAddr(c int, h int) common.Address {
+	switch {
+	case h >= 0 && h < r.spec.NUsers:
+		return r.w.Users[h].Addr
+	case h == HEndpoint:
+		return endpointAddr
+	case h == HPacket:
+		return packetAddr
+	case h == HExecute:
+		return executeAddr
+	case h == HAgent:
+		return agentAddr
+	case h == HRelayer:
+		return r.w.Chains[c].SenderAddress
+	}
+	panic(fmt.Sprintf("holder %d", h))
+}
+
+func (r *run) holders() []int {
+	var hs []int
+	for i := 0; i < r.spec.NUsers; i++ {
+		hs = append(hs, i)
+	}
+	return append(hs, HEndpoint, HPacket, HExecute, HAgent, HRelayer)
+}
+
+func spender(e int) common.Address { return common.BigToAddress(big.NewInt(int64(0xE0000000) + int64(e))) }
+
+func (r *run) tokenID(c int, a common.Address) int {
+	for i, t := range r.tokens[c] {
+		if t == a {
+			return i
+		}
+	}
+	return 999
+}
+
+func (r *run) chainName(i int) string {
+	if i >= 0 && i < len(r.w.Chains) {
+		return r.w.Chains[i].ChainID
+	}
+	return "no-such-chain"
+}
+
+func (r *run) observe() []ChainObs {
+	var out []ChainObs
+	n := r.spec.NChains
+	for c := 0; c < n; c++ {
+		ch := r.w.Chains[c]
+		var o ChainObs
+		for t := 0; t <= r.spec.NTok[c]; t++ {
+			for _, h := range r.holders() {
+				o.Bal = append(o.Bal, r.w.Balance(ch, r.tokens[c][t], r.holderAddr(c, h)).String())
+			}
+			if t > 0 {
+				o.Supply = append(o.Supply, r.w.TotalSupply(ch, r.tokens[c][t]).String())
+			}
+			for d := 0; d < n; d++ {
+				o.Out = append(o.Out, r.w.OutTokens(ch, r.tokens[c][t], r.chainName(d)).String())
+				o.Bind = append(o.Bind, r.w.Bindings(ch, r.tokens[c][t], r.chainName(d)).Amount.String())
+			}
+		}
+		for d := 0; d < n; d++ {
+			if d == c {
+				o.Next = append(o.Next, "0")
+			} else {
+				o.Next = append(o.Next, fmt.Sprint(r.w.NextSeqContract(ch, r.chainName(d))))
+			}
+		}
+		o.Pk = [][3]string{}
+		o.Eff = []string{}
+		for _, sp := range r.sent {
+			if sp.src == c {
+				ft, fa := r.w.PacketFee(ch, sp.p.DstChain, sp.p.Sequence)
+				o.Pk = append(o.Pk, [3]string{fmt.Sprint(r.w.AckStatus(ch, sp.p.DstChain, sp.p.Sequence)), fmt.Sprint(r.tokenID(c, ft)), fa.String()})
+			}
+			if sp.dst == c && sp.cd == CdOk {
+				o.Eff = append(o.Eff, r.w.Allowance(ch, r.tokens[c][1], executeAddr, spender(sp.opID)).String())
+			}
+		}
+		out = append(out, o)
+	}
+	return out
+}
+
+func bigOf(s string) *big.Int {
+	if s == "" {
+		return big.NewInt(0)
+	}
+	v, ok := new(big.Int).SetString(s, 10)
+	if !ok {
+		panic("bad number " + s)
+	}
+	return v
+}
+
+var maxU256 = new(big.Int).Sub(new(big.Int).Lsh(big.NewInt(1), 256), big.NewInt(1))
+
+func (r *run) setup() {
+	s := r.spec
+	r.w = NewWorld(s.NChains, s.NUsers)
+	r.byOp = map[int]*sentPacket{}
+	for c := 0; c < s.NChains; c++ {
+		ch := r.w.Chains[c]
+		for i := 0; i < c; i++ { // make the token addresses of different chains different
+			nonceBump(r.w, ch)
+		}
+		toks := []common.Address{zeroAddr}
+		for t := 1; t <= s.NTok[c]; t++ {
+			toks = append(toks, r.w.DeployERC20(ch))
+		}
+		r.tokens = append(r.tokens, toks)
+	}
+	for _, m := range s.Mint {
+		c, t, u := int(bigOf(m[0]).Int64()), int(bigOf(m[1]).Int64()), int(bigOf(m[2]).Int64())
+		if t == 0 {
+			r.w.FundNative(r.w.Chains[c], r.w.Users[u].Addr, bigOf(m[3]).Int64())
+		} else {
+			r.w.Mint(r.w.Chains[c], r.tokens[c][t], r.w.Users[u].Addr, bigOf(m[3]))
+		}
+	}
+	for c := 0; c < s.NChains; c++ {
+		for t := 1; t <= s.NTok[c]; t++ {
+			for u := 0; u < s.NUsers; u++ {
+				r.w.Approve(r.w.Chains[c], r.w.Users[u], r.tokens[c][t], endpointAddr, maxU256)
+				r.w.Approve(r.w.Chains[c], r.w.Users[u], r.tokens[c][t], packetAddr, maxU256)
+			}
+		}
+	}
+	for _, b := range s.Binds {
+		if err := r.w.Bind(r.w.Chains[b.C], r.tokens[b.C][b.Loc], lower(r.tokens[b.Src][b.Ori]), r.chainName(b.Src), b.Scale); err != nil {
+			panic(fmt.Sprintf("bind %+v: %v", b, err))
+		}
+	}
+}
+
+func nonceBump(w *World, ch *xibctesting.TestChain) {
+	// a contract creation from the endpoint address that does nothing (init code: STOP)
+	if err := w.moduleCall(ch, endpointAddr, nil, []byte{0x00}); err != nil {
+		panic(err)
+	}
+}
+
+// exec runs one op; returns nil when the op refers to a transfer that produced no packet (the op is skipped).
+func (r *run) exec(op Op) *Step {
+	st := &Step{OpID: op.ID}
+	switch op.K {
+	case "T":
+		ch := r.w.Chains[op.C]
+		u := r.w.Users[op.U]
+		rcv := "nothex"
+		if op.Rcv >= 0 {
+			rcv = lower(r.holderAddr(op.Dst%r.spec.NChains, op.Rcv))
+		}
+		d := packettypes.CrossChainData{DstChain: r.chainName(op.Dst), TokenAddress: r.tokens[op.C][op.Tok], Receiver: rcv,
+			Amount: bigOf(op.Amt), ContractAddress: "", CallData: []byte{}, CallbackAddress: zeroAddr, FeeOption: 0}
+		dstTok1 := r.tokens[op.Dst%r.spec.NChains][1]
+		switch op.Cd {
+		case CdOk:
+			d.ContractAddress = lower(dstTok1)
+			d.CallData, _ = erc20ABI.Pack("approve", spender(op.ID), big.NewInt(7))
+		case CdRevert:
+			d.ContractAddress = lower(dstTok1)
+			d.CallData, _ = erc20ABI.Pack("transfer", common.HexToAddress("0xd1d1d1"), new(big.Int).Lsh(big.NewInt(1), 255))
+		case CdHookFail:
+			d.ContractAddress = syscontracts.StakingContractAddress
+			d.CallData, _ = stakingcontract.StakingContract.ABI.Pack("delegate", "notavalidator", big.NewInt(1))
+		case CdOnwardUnknown:
+			d.ContractAddress = lower(agentAddr)
+			d.CallData, _ = agentABI.Pack("send", r.w.Users[0].Addr, lower(r.w.Users[0].Addr), "no-such-chain", big.NewInt(0))
+		}
+		if op.Cb == 1 {
+			d.CallbackAddress = r.tokens[op.C][1] // a contract without callback()
+		}
+		fee := packettypes.Fee{TokenAddress: r.tokens[op.C][op.FTok], Amount: bigOf(op.Fee)}
+		res := r.w.CrossChainCall(ch, u, d, fee)
+		ps := SentPackets(toABCI(res.Events))
+		st.Op = ROp{K: "T", C: op.C, U: op.U, Tok: op.Tok, Amt: bigOf(op.Amt).String(), Dst: op.Dst, Rcv: op.Rcv, Cd: op.Cd, E: op.ID, Cb: op.Cb,
+			FTok: op.FTok, Fee: bigOf(op.Fee).String()}
+		if res.OK() && len(ps) == 1 {
+			sp := &sentPacket{opID: op.ID, p: ps[0], src: op.C, dst: op.Dst, cd: op.Cd, broken: op.Cb == 1}
+			r.sent = append(r.sent, sp)
+			r.byOp[op.ID] = sp
+			st.Op.Seq = ps[0].Sequence
+		} else {
+			st.Class = 1
+			if res.Err != nil {
+				st.Note = "go error: " + res.Err.Error()
+			} else if res.OK() {
+				st.Note = fmt.Sprintf("tx ok but %d packets", len(ps))
+			}
+		}
+	case "R":
+		sp := r.byOp[op.Ref]
+		if sp == nil {
+			return nil
+		}
+		st.Op = ROp{K: "R", Src: sp.src, Dst: sp.dst, Seq: sp.p.Sequence}
+		res, err := r.w.RelayRecv(sp.p)
+		if err != nil {
+			st.Class = 1
+			st.Note = short(err.Error())
+			break
+		}
+		acks := WrittenAcks(res.Events)
+		if len(acks) != 1 {
+			st.Note = fmt.Sprintf("%d acknowledgements written", len(acks))
+			st.Code = 9999
+			break
+		}
+		var a packettypes.Acknowledgement
+		if err := a.ABIDecode(acks[0]); err != nil {
+			panic(err)
+		}
+		st.Code = a.Code
+		sp.ack = acks[0]
+		sp.recvd = true
+	case "A":
+		sp := r.byOp[op.Ref]
+		if sp == nil {
+			return nil
+		}
+		st.Op = ROp{K: "A", Src: sp.src, Dst: sp.dst, Seq: sp.p.Sequence}
+		ack := sp.ack
+		if ack == nil { // premature: a relayer inventing a success acknowledgement
+			ack, _ = packettypes.NewAcknowledgement(0, []byte{}, "", r.w.Chains[sp.src].SenderAcc.String(), 0).ABIPack()
+		}
+		if _, err := r.w.RelayAck(sp.p, ack); err != nil {
+			st.Class = 1
+			st.Note = short(err.Error())
+			break
+		}
+		sp.acked = true
+	case "F":
+		sp := r.byOp[op.Ref]
+		var dst int
+		var seq uint64
+		if sp != nil {
+			dst, seq = sp.dst, sp.p.Sequence
+		} else { // a packet that does not exist (yet)
+			dst, seq = (op.C+1)%r.spec.NChains, uint64(1000+op.ID)
+		}
+		st.Op = ROp{K: "F", C: op.C, U: op.U, Dst: dst, Seq: seq, Amt: bigOf(op.Amt).String()}
+		data, _ := packetABI.Pack("addPacketFee", r.chainName(dst), seq, bigOf(op.Amt))
+		ft, _ := r.w.PacketFee(r.w.Chains[op.C], r.chainName(dst), seq)
+		value := big.NewInt(0)
+		if ft == zeroAddr {
+			value = bigOf(op.Amt)
+		}
+		if res := r.w.UserTx(r.w.Chains[op.C], r.w.Users[op.U], packetAddr, value, data); !res.OK() {
+			st.Class = 1
+		}
+	default:
+		panic("op kind " + op.K)
+	}
+	st.Obs = r.observe()
+	return st
+}
+
+func short(s string) string {
+	if len(s) > 160 {
+		return s[:160]
+	}
+	return s
+}
+
+func runHistory(spec Spec) Result {
+	r := &run{spec: &spec}
+	r.setup()
+	res := Result{Init: r.observe()}
+	if len(spec.Ops) == 0 && spec.NOps > 0 {
+		g := hlib.NewRand(spec.Seed)
+		for i := 0; i < spec.NOps; i++ {
+			op := r.genOp(g, i)
+			spec.Ops = append(spec.Ops, op)
+			if st := r.exec(op); st != nil {
+				res.Steps = append(res.Steps, *st)
+			}
+		}
+	} else {
+		for _, op := range spec.Ops {
+			if st := r.exec(op); st != nil {
+				res.Steps = append(res.Steps, *st)
+			}
+		}
+	}
+	res.Spec = spec
+	return res
+}
 
 func main() {
 	probe := flag.Bool("probe", false, "run the contract-behaviour probe")
+	seed := flag.Uint64("seed", 1, "PRNG seed")
+	n := flag.Int("n", 20, "number of generated histories")
+	from := flag.Int("from", 0, "first history index to run")
+	to := flag.Int("to", -1, "one past the last history index to run (default n)")
+	ops := flag.Int("ops", 40, "operations per history (upper bound; lower = 5/8 of it)")
+	thorough := flag.Bool("thorough", false, "thorough generator (3 chains more often)")
+	in := flag.String("in", "", "replay: file of specs / result lines")
+	out := flag.String("out", "/dev/stdout", "output file (JSON lines)")
 	flag.Parse()
 	if *probe {
 		runProbe()
 		return
+	}
+	var specs []Spec
+	if *in != "" {
+		hlib.ReadLines(*in, func(line []byte) {
+			var wrap struct {
+				Spec *Spec `json:"spec"`
+			}
+			if err := json.Unmarshal(line, &wrap); err == nil && wrap.Spec != nil {
+				specs = append(specs, *wrap.Spec)
+				return
+			}
+			var s Spec
+			if err := json.Unmarshal(line, &s); err != nil {
+				panic(err)
+			}
+			specs = append(specs, s)
+		})
+	} else {
+		if *to < 0 || *to > *n {
+			*to = *n
+		}
+		root := hlib.NewRand(*seed)
+		for i := 0; i < *n; i++ {
+			g := root.Fork(uint64(i))
+			sp := genSpec(g, i, *ops, *thorough)
+			if i >= *from && i < *to {
+				specs = append(specs, sp)
+			}
+		}
+	}
+	w := hlib.NewOut(*out)
+	defer w.Close()
+	for _, s := range specs {
+		w.Emit(runHistory(s))
 	}
 }
